@@ -775,6 +775,12 @@ theorem place_grow (file : Bytes) (free : List Sp) (segs : List Seg) (seq : Nat)
       rw [hfl]
 
 
+/-- a growth step: at least 4096 bytes, and the grown file still fits 32-bit offsets -/
+def GrowOK (fileLen z : Nat) : Prop := 4096 ≤ z ∧ fileLen + z < 4294967296
+
+theorem expandBy_ge_4096 (cur n : Nat) : 4096 ≤ expandBy cur n := by
+  unfold expandBy; omega
+
 /-- `placeSpan` on any layout: a block `R` of FREE segments (empty, at the end of the file, when the file
     grows) is replaced by the new active segment and at most one FREE segment -/
 theorem place_spec (file : Bytes) (free : List Sp) (segs : List Seg) (seq : Nat) (rid : Bytes) (st : List Stream)
@@ -788,7 +794,8 @@ theorem place_spec (file : Bytes) (free : List Sp) (segs : List Seg) (seq : Nat)
       (∀ x ∈ A ++ (.act seq rid st pad :: F) ++ B, x.OK) ∧
       (segsSize (.act seq rid st pad :: F) = segsSize R ∨ B = []) ∧
       (imgs = [("writeAt", render (A ++ (.act seq rid st pad :: F) ++ B))] ∨
-       ∃ z, imgs = [("grow", file ++ zeros z), ("writeAt", render (A ++ (.act seq rid st pad :: F) ++ B))]) := by
+       ∃ z, GrowOK file.length z ∧
+        imgs = [("grow", file ++ zeros z), ("writeAt", render (A ++ (.act seq rid st pad :: F) ++ B))]) := by
   cases hget : getFreeRange free (Seg.act seq rid st 0).size with
   | some r =>
     obtain ⟨start, rem, free'⟩ := r
@@ -801,7 +808,7 @@ theorem place_spec (file : Bytes) (free : List Sp) (segs : List Seg) (seq : Nat)
     refine ⟨segs, [], [], pad, F,
       [("grow", file ++ zeros (expandBy file.length (Seg.act seq rid st 0).size)),
        ("writeAt", render (segs ++ (.act seq rid st pad :: F) ++ []))],
-      by simp, by simp, hF, hp, ?_, ?_, Or.inr rfl, Or.inr ⟨_, rfl⟩⟩
+      by simp, by simp, hF, hp, ?_, ?_, Or.inr rfl, Or.inr ⟨_, ⟨expandBy_ge_4096 _ _, hbig⟩, rfl⟩⟩
     · simpa using hpl
     · simpa using hok
 
@@ -1058,7 +1065,8 @@ theorem remove_refines (s : SF) (segs : List Seg) (h : Rep s segs) (rid : Bytes)
     (docOf rid segs = none → removeRecord s rid = .err "record not found") ∧
     (docOf rid segs ≠ none → ∃ m segs', removeRecord s rid = .ok m ∧ Rep m.st segs' ∧
       (∀ r, docOf r segs' = if r = rid then none else docOf r segs) ∧
-      m.images = [("markFreed", m.st.file)]) := by
+      m.images = [("markFreed", m.st.file)] ∧ m.st.seq = s.seq ∧
+      (∀ q r' t p, Seg.act q r' t p ∈ segs' → Seg.act q r' t p ∈ segs)) := by
   constructor
   · intro hd
     have : idxGet s.index rid = none := by
@@ -1078,7 +1086,13 @@ theorem remove_refines (s : SF) (segs : List Seg) (h : Rep s segs) (rid : Bytes)
                                free := runsOf (A ++ .free (actJunk seq rid st pad) :: B),
                                index := idxDel s.index rid },
                 images := [("markFreed", render (A ++ .free (actJunk seq rid st pad) :: B))] },
-        A ++ .free (actJunk seq rid st pad) :: B, ?_, ?_, ?_, rfl⟩
+        A ++ .free (actJunk seq rid st pad) :: B, ?_, ?_, ?_, rfl, rfl, ?_⟩
+      rotate_right
+      · intro q r' t p hm
+        simp only [List.mem_append, List.mem_cons, reduceCtorEq, false_or] at hm ⊢
+        rcases hm with hm | hm
+        · exact Or.inl hm
+        · exact Or.inr (Or.inr hm)
       · simp only [removeRecord, hi, ho, hret]
       · refine ⟨⟨rfl, hok', rfl⟩, nodup_remove_mid h.nodup _, ?_, h.seq⟩
         intro r
@@ -1120,7 +1134,9 @@ theorem write_fresh (s : SF) (segs : List Seg) (h : Rep s segs) (rid : Bytes) (s
     ∃ m segs', writeRecord s rid st = .ok m ∧ Rep m.st segs' ∧
       (∀ r, docOf r segs' = if r = rid then some st else docOf r segs) ∧
       m.st.seq = (s.seq + 1) % 4294967296 ∧
-      (m.images = [("writeAt", m.st.file)] ∨ ∃ z, m.images = [("grow", s.file ++ zeros z), ("writeAt", m.st.file)]) := by
+      (m.images = [("writeAt", m.st.file)] ∨
+       ∃ z, GrowOK s.file.length z ∧ m.images = [("grow", s.file ++ zeros z), ("writeAt", m.st.file)]) ∧
+      (∀ q r' t p, Seg.act q r' t p ∈ segs' → Seg.act q r' t p ∈ segs ∨ q = s.seq) := by
   obtain ⟨A, R, B, pad, F, imgs, e, hR, hF, _, hpl, hok1, hsz, himgs⟩ :=
     place_spec s.file s.free segs s.seq rid st h.lay hnew hbig
   have hnot : rid ∉ actRids segs := (docOf_none_iff rid segs).mp hfresh
@@ -1130,7 +1146,15 @@ theorem write_fresh (s : SF) (segs : List Seg) (h : Rep s segs) (rid : Bytes) (s
   simp only [actRids_append, actRids_allFree R hR, List.append_nil, List.mem_append, not_or] at hnot hnd
   refine ⟨{ st := { file := render (A ++ (.act s.seq rid st pad :: F) ++ B), index := idxSet s.index rid (segsSize A),
                     free := runsOf (A ++ (.act s.seq rid st pad :: F) ++ B), seq := (s.seq + 1) % 4294967296 },
-            images := imgs }, A ++ (.act s.seq rid st pad :: F) ++ B, ?_, ?_, ?_, rfl, himgs⟩
+            images := imgs }, A ++ (.act s.seq rid st pad :: F) ++ B, ?_, ?_, ?_, rfl, himgs, ?_⟩
+  rotate_right
+  · intro q r' t p hm
+    simp only [List.mem_append, List.mem_cons] at hm ⊢
+    rcases hm with (hm | hm | hm) | hm
+    · exact Or.inl (Or.inl (Or.inl hm))
+    · cases hm; exact Or.inr rfl
+    · have := hF _ hm; simp [Seg.isFree] at this
+    · exact Or.inl (Or.inr hm)
   · simp only [writeRecord, hpl, hi]
   · refine ⟨⟨rfl, hok1, rfl⟩, ?_, ?_, Nat.mod_lt _ (by decide)⟩
     · simp only [actRids_append, actRids_block _ _ _ _ F hF]
@@ -1186,7 +1210,8 @@ theorem write_over (s : SF) (segs : List Seg) (h : Rep s segs) (rid : Bytes) (st
       (∀ r, docOf r segs' = if r = rid then some st else docOf r segs) ∧
       m.st.seq = (s.seq + 1) % 4294967296 ∧
       (m.images = [("writeAt", mid), ("markFreed", m.st.file)] ∨
-       ∃ z, m.images = [("grow", s.file ++ zeros z), ("writeAt", mid), ("markFreed", m.st.file)]) := by
+       ∃ z, GrowOK s.file.length z ∧ m.images = [("grow", s.file ++ zeros z), ("writeAt", mid), ("markFreed", m.st.file)]) ∧
+      (∀ q r' t p, Seg.act q r' t p ∈ segs' → Seg.act q r' t p ∈ segs ∨ q = s.seq) := by
   obtain ⟨A, R, B, pad, F, imgs, e, hR, hF, _, hpl, hok1, hsz, himgs⟩ :=
     place_spec s.file s.free segs s.seq rid st h.lay hnew hbig
   cases hi : idxGet s.index rid with
@@ -1225,7 +1250,16 @@ theorem write_over (s : SF) (segs : List Seg) (h : Rep s segs) (rid : Bytes) (st
                       seq := (s.seq + 1) % 4294967296 },
               images := imgs ++ [("markFreed", render (A1 ++ .free (actJunk seq0 rid st0 pad0) :: (A2 ++ (.act s.seq rid st pad :: F) ++ B)))] },
       A1 ++ .free (actJunk seq0 rid st0 pad0) :: (A2 ++ (.act s.seq rid st pad :: F) ++ B),
-      render (A1 ++ .act seq0 rid st0 pad0 :: (A2 ++ (.act s.seq rid st pad :: F) ++ B)), ?_, ?_, ?_, rfl, ?_⟩
+      render (A1 ++ .act seq0 rid st0 pad0 :: (A2 ++ (.act s.seq rid st pad :: F) ++ B)), ?_, ?_, ?_, rfl, ?_, ?_⟩
+    rotate_right
+    · intro q r' t p hm
+      simp only [List.mem_append, List.mem_cons, reduceCtorEq, false_or] at hm ⊢
+      rcases hm with hm | (hm | hm | hm) | hm
+      · exact Or.inl (Or.inl (Or.inl (Or.inl hm)))
+      · exact Or.inl (Or.inl (Or.inl (Or.inr (Or.inr hm))))
+      · cases hm; exact Or.inr rfl
+      · have := hF _ hm; simp [Seg.isFree] at this
+      · exact Or.inl (Or.inr hm)
     · simp only [writeRecord, hpl, hi]
       have : o = segsSize A1 := by omega
       rw [this, hret]
@@ -1253,9 +1287,9 @@ theorem write_over (s : SF) (segs : List Seg) (h : Rep s segs) (rid : Bytes) (st
         simp [(docOf_none_iff r A1).mpr hnA1, (docOf_none_iff r A2).mpr hnA2]
       · have hr' : ¬ rid = r := fun e => hr e.symm
         simp only [hr, hr', ↓reduceIte, Option.or_none, Option.none_or]
-    · rcases himgs with rfl | ⟨z, rfl⟩
+    · rcases himgs with rfl | ⟨z, hz, rfl⟩
       · exact Or.inl (by simp [List.append_assoc])
-      · exact Or.inr ⟨z, by simp [List.append_assoc]⟩
+      · exact Or.inr ⟨z, hz, by simp [List.append_assoc]⟩
   | none =>
     -- the old version lies behind the place of the new one
     rw [hfa] at hfind
@@ -1283,7 +1317,16 @@ theorem write_over (s : SF) (segs : List Seg) (h : Rep s segs) (rid : Bytes) (st
                       seq := (s.seq + 1) % 4294967296 },
               images := imgs ++ [("markFreed", render ((A ++ (.act s.seq rid st pad :: F) ++ B1) ++ .free (actJunk seq0 rid st0 pad0) :: B2))] },
       (A ++ (.act s.seq rid st pad :: F) ++ B1) ++ .free (actJunk seq0 rid st0 pad0) :: B2,
-      render ((A ++ (.act s.seq rid st pad :: F) ++ B1) ++ .act seq0 rid st0 pad0 :: B2), ?_, ?_, ?_, rfl, ?_⟩
+      render ((A ++ (.act s.seq rid st pad :: F) ++ B1) ++ .act seq0 rid st0 pad0 :: B2), ?_, ?_, ?_, rfl, ?_, ?_⟩
+    rotate_right
+    · intro q r' t p hm
+      simp only [List.mem_append, List.mem_cons, reduceCtorEq, false_or] at hm ⊢
+      rcases hm with ((hm | hm | hm) | hm) | hm
+      · exact Or.inl (Or.inl (Or.inl hm))
+      · cases hm; exact Or.inr rfl
+      · have := hF _ hm; simp [Seg.isFree] at this
+      · exact Or.inl (Or.inr (Or.inl hm))
+      · exact Or.inl (Or.inr (Or.inr (Or.inr hm)))
     · simp only [writeRecord, hpl, hi]
       rw [hold_off, hret]
     · refine ⟨⟨rfl, hok2, rfl⟩, ?_, ?_, Nat.mod_lt _ (by decide)⟩
@@ -1306,9 +1349,9 @@ theorem write_over (s : SF) (segs : List Seg) (h : Rep s segs) (rid : Bytes) (st
         simp [(docOf_none_iff r A).mpr hnA]
       · have hr' : ¬ rid = r := fun e => hr e.symm
         simp only [hr, hr', ↓reduceIte, Option.or_none, Option.none_or]
-    · rcases himgs with rfl | ⟨z, rfl⟩
+    · rcases himgs with rfl | ⟨z, hz, rfl⟩
       · exact Or.inl (by simp [List.append_assoc])
-      · exact Or.inr ⟨z, by simp [List.append_assoc]⟩
+      · exact Or.inr ⟨z, hz, by simp [List.append_assoc]⟩
 
 
 /-! ## operation sequences -/
